@@ -326,6 +326,55 @@ fn run(line: &str) -> String {
             let f = f.vh_finalize();
             format!("{:e} {} {}", f.area(), fv(f.centroid()), fv(f.normal()))
         }
+        "polytope_ring" => {
+            // polytope_ring <n>: two generators on the axis of a ring of n others (radii slightly varied); only the two axis cells are
+            // constructed; with faces: every vertex in exactly three faces, V - E + F = 2, counts agree with the lists, the big faces have n vertices
+            let n = a.u();
+            let mut gens = vec![DVec3::new(0.5, 0.5, 0.35), DVec3::new(0.5, 0.5, 0.65)];
+            for k in 0..n {
+                let t = 2. * std::f64::consts::PI * (k as f64 + 0.37) / n as f64;
+                let r = 0.3 * (1. + 0.01 * ((k * 7919) % 13) as f64 / 13.);
+                gens.push(DVec3::new(0.5 + r * t.cos(), 0.5 + r * t.sin(), 0.5));
+            }
+            let mut mask = vec![false; n + 2];
+            mask[0] = true;
+            mask[1] = true;
+            let vi = VoronoiIntegrator::build(&gens, Some(&mask[..]), DVec3::ZERO, DVec3::ONE, Dimensionality::ThreeD, false).with_faces();
+            let mut bad: Vec<String> = vec![];
+            for cell in vi.cells_iter() {
+                let nv = cell.vertices.len();
+                let nf = cell.face_count();
+                let mut inc = vec![0usize; nv];
+                let mut half = 0usize;
+                let mut biggest = 0usize;
+                for f in 0..nf {
+                    let poly = cell.face_vertices(f);
+                    if poly.len() != cell.face_vertex_count(f) {
+                        bad.push(format!("cell {} face {}: face_vertex_count {} but {} vertices listed", cell.idx, f, cell.face_vertex_count(f), poly.len()));
+                    }
+                    biggest = biggest.max(poly.len());
+                    half += poly.len();
+                    for &v in poly {
+                        inc[v] += 1;
+                    }
+                }
+                let wrong = inc.iter().filter(|&&c| c != 3).count();
+                if wrong > 0 {
+                    bad.push(format!("cell {}: {} of {} vertices do not lie in exactly three faces", cell.idx, wrong, nv));
+                }
+                if half % 2 != 0 || (nv as i64) - (half as i64) / 2 + (nf as i64) != 2 {
+                    bad.push(format!("cell {}: V - E + F = {} - {}/2 + {} != 2", cell.idx, nv, half, nf));
+                }
+                if biggest < n / 2 {
+                    bad.push(format!("cell {}: largest face lists {} vertices (ring of {})", cell.idx, biggest, n));
+                }
+            }
+            if bad.is_empty() {
+                "valid".to_string()
+            } else {
+                bad[..bad.len().min(3)].join(" ; ")
+            }
+        }
         "polytope_check" => {
             // polytope_check <kind>: cells with face information of an fcc lattice (exact ties, 4-valent corners), a cubic lattice and a
             // generic set: every vertex lies in exactly three faces, every face is a polygon (>= 3 vertices, no repeated index),
